@@ -275,4 +275,17 @@ example : accepts ⟨0, 0, true⟩ true
     [.set 1000 true 0, .out (.w 1000 0), .bus 3148 100000, .set 1000 true 200000, .q (some 3148) 200000,
      .set 3148 true 300000, .out (.w 3148 300000), .fin 400000] = true := by decide
 
+
+/-- The hypotheses of (A) and (B) are met by the first trace above: the last update (3148 at 0.5 s) was taken, the
+connection stayed up, the clock passed 1.5 s; the value reached the bus at 1.0 s because the device sent it, and the two
+update-caused writes are at 0 s and 1.0 s. -/
+def exCfg : Cfg := ⟨1000000, 0, true⟩
+def exTrace : List Obs :=
+  [.set 1000 false 0, .out (.w 1000 0), .set 3098 false 250000, .set 3148 false 500000,
+   .out (.w 3148 1000000), .q (some 3148) 1500000, .read 3000000, .out (.r 3148 3000000), .fin 5000000]
+example : ∃ s, Accepts exCfg true exTrace s ∧ (track true exTrace).tSet = some 500000 ∧
+    (track true exTrace).connOk = true ∧ 500000 + exCfg.cool < s.now ∧
+    s.onBus = some (1000000, .sent) ∧ s.uw = [1000000, 0] :=
+  ⟨_, rfl, by decide, by decide, by decide, by decide, by decide⟩
+
 end XknxVerif.Props.C41
